@@ -35,4 +35,127 @@ theorem utf8Encode_bytes (s : List Char) : Bytes (utf8Encode s) := by
   obtain ⟨c, _, hc⟩ := hb
   exact utf8EncodeChar_bytes c b hc
 
+
+/-! ### Unfolding `utf8Decode` one step
+
+`utf8Decode` is compiled by structural recursion (`List.brecOn … utf8Decode._f`).  Its equation
+lemmas cannot be generated (the default unfolding evaluates `mkChar (… * 262144 + …)` on open
+terms), so the step is unfolded by hand: the `brecOn` plumbing generically in the functional `F`,
+then `utf8Decode._f` with the table of recursive results kept opaque. -/
+
+universe u v
+
+theorem brecOn_cons {α : Type u} {motive : List α → Sort v}
+    (F : (t : List α) → List.below (motive := motive) t → motive t) (b : α) (rest : List α) :
+    List.brecOn (b :: rest) F = F (b :: rest) (List.brecOn.go rest F) := rfl
+
+theorem go_cons {α : Type u} {motive : List α → Sort v}
+    (F : (t : List α) → List.below (motive := motive) t → motive t) (h : α) (t : List α) :
+    List.brecOn.go (h :: t) F = ⟨List.brecOn (h :: t) F, List.brecOn.go t F⟩ := rfl
+
+theorem go_eta {α : Type u} {motive : List α → Sort v}
+    (F : (t : List α) → List.below (motive := motive) t → motive t) (l : List α) :
+    List.brecOn.go l F = ⟨List.brecOn l F, (List.brecOn.go l F).2⟩ := rfl
+
+theorem utf8Decode_def (l : List Nat) : List.brecOn l utf8Decode._f = utf8Decode l := by
+  delta utf8Decode
+  rfl
+
+theorem utf8Decode_cons_f (b : Nat) (rest : List Nat) :
+    utf8Decode (b :: rest) = utf8Decode._f (b :: rest) (List.brecOn.go rest utf8Decode._f) := by
+  rw [← utf8Decode_def, brecOn_cons]
+
+/-- generalise the table of recursive results -/
+theorem f_gen (L : List Nat) (g : List.below (motive := fun _ => Option (List Char)) L)
+    (R : Option (List Char)) (h : ∀ g', g = g' → utf8Decode._f L g' = R) :
+    utf8Decode._f L g = R := h g rfl
+
+/-- the `match mkChar _, utf8Decode _ with` of `utf8Decode`, through the matcher it uses -/
+def consOpt (a : Option Char) (b : Option (List Char)) : Option (List Char) :=
+  utf8Decode.match_1 (fun _ _ => Option (List Char)) a b (fun c cs => some (c :: cs))
+    (fun _ _ => none)
+
+theorem consOpt_some (c : Char) (o : Option (List Char)) :
+    consOpt (some c) o = o.map (c :: ·) := by
+  cases o <;> rfl
+
+theorem isCont_low (k : Nat) : isCont (0x80 + k % 64) = true := by
+  simp [isCont]; omega
+
+set_option diagnostics true in
+set_option diagnostics.threshold 50 in
+/-- Decoding the encoding of one char followed by `rest`. -/
+theorem utf8Decode_encodeChar_append (c : Char) (rest : List Nat) :
+    utf8Decode (Wire.utf8EncodeChar c ++ rest) = (utf8Decode rest).map (c :: ·) := by
+  have hv := char_valid_toNat c
+  have hm := mkChar_toNat c
+  unfold Wire.utf8EncodeChar
+  simp only
+  split
+  · -- 1 byte
+    rename_i h1
+    rw [List.cons_append, List.nil_append, utf8Decode_cons_f, go_eta, utf8Decode_def]
+    refine f_gen _ _ _ (fun g hg => ?_)
+    dsimp only [utf8Decode._f]
+    rw [if_pos h1, hm]
+    subst hg
+    exact consOpt_some _ _
+  · rename_i h1
+    split
+    · -- 2 bytes
+      rename_i h2
+      have e : (0xC0 + c.toNat / 64 - 0xC0) * 64 + (0x80 + c.toNat % 64 - 0x80) = c.toNat := by
+        omega
+      simp only [List.cons_append, List.nil_append]
+      rw [utf8Decode_cons_f, go_cons, go_eta]
+      refine f_gen _ _ _ (fun g hg => ?_)
+      dsimp only [utf8Decode._f]
+      rw [if_neg (by omega), if_neg (by omega), if_pos (by omega), if_pos (isCont_low _), e, hm]
+      subst hg
+      rw [utf8Decode_def rest]
+      exact consOpt_some _ _
+    · rename_i h2
+      split
+      · -- 3 bytes
+        rename_i h3
+        have e : (0xE0 + c.toNat / 4096 - 0xE0) * 4096 + (0x80 + c.toNat / 64 % 64 - 0x80) * 64
+            + (0x80 + c.toNat % 64 - 0x80) = c.toNat := by omega
+        have hcc : (isCont (0x80 + c.toNat / 64 % 64) && isCont (0x80 + c.toNat % 64)) = true := by
+          rw [isCont_low, isCont_low]; rfl
+        simp only [List.cons_append, List.nil_append]
+        rw [utf8Decode_cons_f, go_cons, go_cons, go_eta]
+        refine f_gen _ _ _ (fun g hg => ?_)
+        dsimp only [utf8Decode._f]
+        rw [if_neg (by omega), if_neg (by omega), if_neg (by omega), if_pos (by omega),
+          if_pos hcc, e, if_neg h2, hm]
+        subst hg
+        rw [utf8Decode_def rest]
+        exact consOpt_some _ _
+      · -- 4 bytes
+        rename_i h3
+        have e : (0xF0 + c.toNat / 262144 - 0xF0) * 262144
+            + (0x80 + c.toNat / 4096 % 64 - 0x80) * 4096
+            + (0x80 + c.toNat / 64 % 64 - 0x80) * 64
+            + (0x80 + c.toNat % 64 - 0x80) = c.toNat := by omega
+        have hcc : (isCont (0x80 + c.toNat / 4096 % 64) && isCont (0x80 + c.toNat / 64 % 64)
+            && isCont (0x80 + c.toNat % 64)) = true := by
+          rw [isCont_low, isCont_low, isCont_low]; rfl
+        simp only [List.cons_append, List.nil_append]
+        rw [utf8Decode_cons_f, go_cons, go_cons, go_cons, go_eta]
+        refine f_gen _ _ _ (fun g hg => ?_)
+        dsimp only [utf8Decode._f]
+        rw [if_neg (by omega), if_neg (by omega), if_neg (by omega), if_neg (by omega),
+          if_pos (by omega), if_pos hcc, e, if_neg h3, hm]
+        subst hg
+        rw [utf8Decode_def rest]
+        exact consOpt_some _ _
+
+theorem utf8Decode_encode (s : List Char) : utf8Decode (utf8Encode s) = some s := by
+  unfold utf8Encode Wire.utf8Encode
+  induction s with
+  | nil => rfl
+  | cons c cs ih =>
+    rw [List.flatMap_cons, utf8Decode_encodeChar_append, ih]
+    rfl
+
 end Tera.Contrib
